@@ -6,6 +6,8 @@ from hypothesis import strategies as st
 from vlib import interleaved_model as im
 from vlib.core import Case, Facet, Refused, Violation
 
+# thorough-tier budgets of every facet are multiplied by this factor (sized for ~5-8 min on 16 cores)
+THOROUGH_SCALE = 5
 LEVEL = "exploration"
 RULE = ("specs = (N, B<=N, drop_last, drop_last_batch_size multiple of B, budget kind/value, main sampler kind, 0-3 "
         "interleaved configs) drawn by Hypothesis (facet 'random') or enumerated completely for N<=7 (facet "
